@@ -2,9 +2,9 @@
 package c14
 
 import (
-	"os"
 	"encoding/json"
 	"fmt"
+	"os"
 	"strings"
 	"time"
 
@@ -119,6 +119,15 @@ func universe(tier string) []*ref.Schema {
 			}
 		}
 		u = append(u, x)
+	}
+	// wide tables: documents of 20 KB to 300 KB (a file header holding one crosses the reader's 64 KiB chunks)
+	for _, n := range []int{250, 760, 1500, 3300} {
+		w := &ref.Schema{Type: "record", Name: fmt.Sprintf("WideTable%d", n), Namespace: "warehouse.exports"}
+		for i := 0; i < n; i++ {
+			ft := []*ref.Schema{ref.Prim("long"), ref.Prim("string"), ref.Logical("long", "timestamp-micros"), ref.Prim("double")}[i%4]
+			w.Fields = append(w.Fields, ref.Field{Name: fmt.Sprintf("column_number_%04d", i), Type: ref.Union(ref.Prim("null"), ft)})
+		}
+		u = append(u, w)
 	}
 	memoU[tier] = u
 	return u
@@ -364,6 +373,10 @@ func checkDoc(c *fw.Ctx, ast *ref.Schema, doc string, variant string) {
 	}
 	if d := aschema.Diff(got, back); d != "" {
 		c.Violation("marshal-parse-not-identity|"+kind, fmt.Sprintf("parse(Marshal(s)) differs from s at %s — %s", d, clipS(string(out), 200)), det)
+	} else if d := formDiff(got, back, "schema"); d != "" {
+		// "parses back to an identical schema": the Go value a caller compares (reflect.DeepEqual, cmp) keeps, per
+		// node, whether the type was written as a bare name or as an object
+		c.Violation("marshal-parse-not-identity|"+kind+"|object-form", fmt.Sprintf("parse(Marshal(s)) is not the value s: %s — document %s, marshalled %s", d, clipS(doc, 200), clipS(string(out), 200)), det)
 	}
 	// history: the caller edits everything reachable from the result (deriving another schema from it is ordinary
 	// use), then parses the same document again: the second result is a function of the document alone
@@ -375,6 +388,40 @@ func checkDoc(c *fw.Ctx, ast *ref.Schema, doc string, variant string) {
 		c.Violation("parse-depends-on-history|"+kind, fmt.Sprintf("after the first result was edited by the caller, parsing the same document again differs from the document at %s — %s", d, clipS(doc, 200)), det)
 	}
 	c.Nontrivial(doc)
+}
+
+// formDiff: where do a and b (already known to describe the same schema) differ in having / not having an Object?
+func formDiff(a, b avro.Schema, path string) string {
+	if (a.Object == nil) != (b.Object == nil) {
+		return fmt.Sprintf("at %s one has an Object (object form), the other has none (bare name)", path)
+	}
+	for i := range a.Union {
+		if i < len(b.Union) {
+			if d := formDiff(a.Union[i], b.Union[i], fmt.Sprintf("%s.Union[%d]", path, i)); d != "" {
+				return d
+			}
+		}
+	}
+	if a.Object != nil && b.Object != nil {
+		for i := range a.Object.Fields {
+			if i < len(b.Object.Fields) {
+				if d := formDiff(a.Object.Fields[i].Type, b.Object.Fields[i].Type, fmt.Sprintf("%s.Fields[%d]", path, i)); d != "" {
+					return d
+				}
+			}
+		}
+		if a.Type == "array" {
+			if d := formDiff(a.Object.Items, b.Object.Items, path+".Items"); d != "" {
+				return d
+			}
+		}
+		if a.Type == "map" {
+			if d := formDiff(a.Object.Values, b.Object.Values, path+".Values"); d != "" {
+				return d
+			}
+		}
+	}
+	return ""
 }
 
 // scramble overwrites everything reachable from s in place.
@@ -511,7 +558,17 @@ func runCase(c *fw.Ctx, idx int) {
 	u := universe(c.Tier)
 	for k := idx * chunk; k < (idx+1)*chunk && k < len(u); k++ {
 		ast := u[k]
-		c.Begin("c14", ast.Print(nil))
+		c.Begin("c14", clipS(ast.Print(nil), 300))
+		if strings.HasPrefix(ast.Name, "WideTable") {
+			// documents of this size: three renderings, through SchemaFromString and through a file header
+			for layout := 0; layout < 3; layout++ {
+				doc := ast.Print(&ref.PrintOpts{KeyOrder: keyOrder(layout * 5), Layout: layout})
+				checkDoc(c, ast, doc, "wide")
+				checkFileHeader(c, ast, doc, "wide")
+			}
+			cleanupC14()
+			continue
+		}
 		nperm := 24
 		for p := 0; p < nperm; p++ {
 			for layout := 0; layout < 3; layout++ {
@@ -562,7 +619,7 @@ func init() {
 			if tier == "thorough" {
 				d += " plus depth 3 over a 6-leaf alphabet"
 			}
-			return "every reference schema AST of " + d + " under constructors {array, map, record(1 field), record(2 fields, namespace), record(3 fields), union [X], [null,X], [X,null], [null,X,boolean,double]}; each rendered under 24 key orderings (every permutation for objects with <=4 keys, rotations/reversals beyond) × 3 whitespace layouts, and in 6 renderings with JSON string escapes (one character of every string, keys included, as \\uXXXX; optionally '/' as \\/), and with each of 18 extra attributes (doc, default null/object, aliases, order, precision, scale, unknown object, unknown array, and 9 look-alikes of supported attributes that differ only in case or punctuation: Size, Name, NAMESPACE, Items, Values, logical_type, logical-type, Symbols, Type) inserted at each schema object and each field object; SchemaFromString result compared structurally with the expected avro.Schema; Marshal output checked with encoding/json, re-parsed by the reference parser and by the library; after every document the caller-visible result is overwritten in place (every reachable string, slice element and size) and the same document parsed again, which must again equal the document; one rendering per AST and every look-alike-attribute document (plus one slot of every other extra) is also stored as avro.schema of a container-file header and read back with FileSchema, same oracle; malformed documents = every truncation and every structural-token deletion/duplication of the small documents, oracle json.Valid, through SchemaFromString and through a file header read with FileSchema; plus unions of named types that share a short name in different namespaces, and deep documents (nullable repeated records 6 and 16 levels deep, arrays/maps 40 and 70 deep); non-trivial = a distinct document that reached the comparison"
+			return "every reference schema AST of " + d + " under constructors {array, map, record(1 field), record(2 fields, namespace), record(3 fields), union [X], [null,X], [X,null], [null,X,boolean,double]}; each rendered under 24 key orderings (every permutation for objects with <=4 keys, rotations/reversals beyond) × 3 whitespace layouts, and in 6 renderings with JSON string escapes (one character of every string, keys included, as \\uXXXX; optionally '/' as \\/), and with each of 18 extra attributes (doc, default null/object, aliases, order, precision, scale, unknown object, unknown array, and 9 look-alikes of supported attributes that differ only in case or punctuation: Size, Name, NAMESPACE, Items, Values, logical_type, logical-type, Symbols, Type) inserted at each schema object and each field object; SchemaFromString result compared structurally with the expected avro.Schema; Marshal output checked with encoding/json, re-parsed by the reference parser and by the library; after every document the caller-visible result is overwritten in place (every reachable string, slice element and size) and the same document parsed again, which must again equal the document; one rendering per AST and every look-alike-attribute document (plus one slot of every other extra) is also stored as avro.schema of a container-file header and read back with FileSchema, same oracle; malformed documents = every truncation and every structural-token deletion/duplication of the small documents, oracle json.Valid, through SchemaFromString and through a file header read with FileSchema; plus unions of named types that share a short name in different namespaces, and deep documents (nullable repeated records 6 and 16 levels deep, arrays/maps 40 and 70 deep), and wide tables of 250 to 3300 nullable columns (documents of 20 KB to 300 KB, also through a file header); parse(Marshal(s)) is compared with s including, per node, whether the type is a bare name or an object; non-trivial = a distinct document that reached the comparison"
 		},
 		Assumptions: []string{
 			"a nil Object and an all-zero Object, nil and empty slices are identified (rendering details, not structure)",
